@@ -11,7 +11,7 @@ import (
 	"golang.org/x/tools/go/ssa"
 )
 
-func signCfg() rules.SignCfg {
+func signCfg(c *rules.Ctx, r *rules.Roles) rules.SignCfg {
 	isInterp := func(f *types.Var) bool {
 		rel, ok := core.Rel(f.Pkg())
 		return ok && rel == relInterp
@@ -48,8 +48,9 @@ func signCfg() rules.SignCfg {
 		return "", false
 	}
 	return rules.SignCfg{
-		Rel:       relInterp,
-		SinkField: sinkName,
+		Rel:              relInterp,
+		MustBeNNAtReturn: c.SaveBalanceCells(r),
+		SinkField:        sinkName,
 		NNField: func(f *types.Var) bool {
 			if f.Pkg() == nil {
 				return false
@@ -103,7 +104,7 @@ func signCfg() rules.SignCfg {
 
 func obSign(c *rules.Ctx, id string) {
 	ob := c.R.Ob(id, "sign", "no possibly-negative amount (script cap, overdraft grant, balance, balance+overdraft, remaining portion) reaches a sender / receiver / posting amount without a sign test or clamp on every path", 6)
-	c.SignAnalysis(ob, signCfg())
+	c.SignAnalysis(ob, signCfg(c, c.Roles(ob)))
 	obp := c.R.Ob(id+"p", "sign/portion-range", "portion values are within [0,1]: the portion reader returns a value only after comparing it with zero and one", 1)
 	c.PortionRangeChecked(obp)
 }
@@ -128,6 +129,7 @@ func init() {
 			r := c.Roles(ob1)
 			c.ZeroFilter(ob1, r)
 			obSign(c, "C02.2")
+			obPushBack(c, "C02.3", r)
 			ob4 := c.R.Ob("C02.4", "origin/posting", "a posting's source is a sender's name, its destination a receiver's name that is never the kept marker, its asset the current asset of the statement", 3)
 			c.PostingShape(ob4, r, keptMarker(c))
 			ob5 := c.R.Ob("C02.4b", "ctrl/asset", "the current asset is assigned by each statement before anything reads it", 2)
